@@ -20,6 +20,8 @@ pub fn units(tier: &str, _seed: u64) -> Vec<String> {
     // two services whose mix may differ from step to step, with surplus production at some steps: the service
     // shares of step A and step B must be the same annual shares
     v.push(unit(&[("shape", "U:CAL:ELECTRICIDAD;U:REF:ELECTRICIDAD;P:EL_INSITU"), ("n", "2"), ("fs", "PEN"), ("k", "sym"), ("lm", "0")]));
+    // cogeneration with import at one step and export at another (step A and step B results of opposite sign)
+    v.push(unit(&[("shape", "U:ACS:ELECTRICIDAD;P:EL_COGEN;U:COGEN:GASNATURAL"), ("n", "2"), ("fs", "PEN"), ("k", "sym"), ("lm", "0"), ("bud", "100")]));
     if tier == "thorough" {
         for (s, fs) in shapes {
             v.push(unit(&[("shape", s), ("n", "2"), ("fs", fs), ("k", "sym"), ("lm", "0")]));
@@ -138,6 +140,22 @@ pub fn scenario(u: &Unit) -> String {
             if let Some(ra) = crate::by_name!(b.we.a_by_srv, srv) {
                 for ((n, x), (_, y)) in comps(r).iter().zip(comps(ra).iter()) {
                     ob(&format!("B(0)=A.{}.{}.{}", p, srv, n), x.ident(*y));
+                }
+            }
+        }
+    }
+    // (4) whole building and per m2, total and per service: affine in k_exp (sums over carriers of affine terms:
+    // a tolerant statement; with one carrier it is the carrier's own)
+    for (p, bk_, b1_) in [("bal", &epk.balance, &ep1.balance), ("m2", &epk.balance_m2, &ep1.balance_m2)] {
+        let ncr = epk.balance_cr.len() as f32;
+        let magv = comps(&bk_.we.del).iter().zip(comps(&bk_.we.exp_a).iter()).zip(comps(&b1_.we.exp).iter()).map(|((d, e), x)| d.1.abs_() + e.1.abs_() + x.1.abs_()).collect::<Vec<F>>();
+        for (j, ((n, bb), ((_, a_), (_, b1v)))) in comps(&bk_.we.b).iter().zip(comps(&bk_.we.a).iter().zip(comps(&b1_.we.b).iter())).enumerate() {
+            ob(&format!("B(k)~A+k(B(1)-A).{}.{}", p, n), bb.approx(*a_ + kk * (*b1v - *a_), 16.0 * ncr + 16.0, magv[j]));
+        }
+        for (srv, r) in sorted_kv(bk_.we.b_by_srv.iter()) {
+            if let (Some(ra), Some(r1)) = (crate::by_name!(bk_.we.a_by_srv, srv), crate::by_name!(b1_.we.b_by_srv, srv)) {
+                for (j, ((n, bb), ((_, a_), (_, b1v)))) in comps(r).iter().zip(comps(ra).iter().zip(comps(r1).iter())).enumerate() {
+                    ob(&format!("B(k)~A+k(B(1)-A).{}.{}.{}", p, srv, n), bb.approx(*a_ + kk * (*b1v - *a_), 16.0 * ncr + 16.0, magv[j]));
                 }
             }
         }
